@@ -483,7 +483,7 @@ func C16(r *core.Run) {
 
 	rng := r.Rand("c16")
 	var cases []c16Case
-	for rep := 0; rep < r.Pick(1, 5); rep++ {
+	for rep := 0; rep < r.Pick(1, 10); rep++ {
 		cases = append(cases, c16Matrix(rng, rep)...)
 	}
 	nMatrix := len(cases)
@@ -669,5 +669,5 @@ func C16(r *core.Run) {
 	e.close()
 	_ = procs
 	r.JudgeRaces(core.ParseRaceLogs(filepath.Join(r.WorkDir, "race-")))
-	r.Finish(r.Pick(60, 300))
+	r.Finish(r.Pick(60, 450))
 }
